@@ -26,8 +26,9 @@ type Step struct {
 	G        int64  `json:"g"`    // goroutine id
 	Err      string `json:"err,omitempty"`
 	Injected bool   `json:"injected,omitempty"`
-	Key      string `json:"key,omitempty"` // lock key for lock.* events
-	AtUS     int64  `json:"at_us"`         // microseconds since Begin (diagnostics only)
+	Done     bool   `json:"done,omitempty"` // the real call returned (its effect, if any, took place)
+	Key      string `json:"key,omitempty"`  // lock key for lock.* events
+	AtUS     int64  `json:"at_us"`          // microseconds since Begin (diagnostics only)
 }
 
 // Fault names the single call to fail: the Occ-th call named Name.
@@ -221,13 +222,14 @@ func (ic *Interceptor) Do(name string, blocking bool, do func() error) error {
 	if gate != nil && !blocking {
 		gate.done(st)
 	}
-	if err != nil {
-		ic.mu.Lock()
-		if idx < len(ic.history) && ic.history[idx].Seq == st.Seq {
+	ic.mu.Lock()
+	if idx < len(ic.history) && ic.history[idx].Seq == st.Seq {
+		ic.history[idx].Done = true
+		if err != nil {
 			ic.history[idx].Err = err.Error()
 		}
-		ic.mu.Unlock()
 	}
+	ic.mu.Unlock()
 	if crashHere && crashAfter {
 		ic.crash()
 		park()
